@@ -1352,3 +1352,87 @@ func keys(m map[string]bool) []string {
 	sort.Strings(out)
 	return out
 }
+
+// H265 SPS variants for the `cs` ops: the general constraint flags of profile_tier_level() (13 flags at NAL bit
+// offsets 64..76, general_max_14bit at 77) are rewritten in the first SPS of the list, so that every flag is seen
+// set and clear on its own (e.g. max_422chroma != max_420chroma: the 4:2:2 Range Extensions profiles).
+func mvH265Unescape(b []byte) []byte {
+	var out []byte
+	z := 0
+	for _, c := range b {
+		if z >= 2 && c == 3 {
+			z = 0
+			continue
+		}
+		out = append(out, c)
+		if c == 0 {
+			z++
+		} else {
+			z = 0
+		}
+	}
+	return out
+}
+
+func mvH265Escape(b []byte) []byte {
+	var out []byte
+	z := 0
+	for _, c := range b {
+		if z >= 2 && c <= 3 {
+			out = append(out, 3)
+			z = 0
+		}
+		out = append(out, c)
+		if c == 0 {
+			z++
+		} else {
+			z = 0
+		}
+	}
+	return out
+}
+
+func mvH265WithFlags(sps []byte, flags []bool, rext bool) []byte {
+	raw := mvH265Unescape(sps)
+	set := func(bit int, v bool) {
+		if v {
+			raw[bit/8] |= 0x80 >> uint(bit%8)
+		} else {
+			raw[bit/8] &^= 0x80 >> uint(bit%8)
+		}
+	}
+	if rext {
+		// general_profile_idc = 4 (Range Extensions) and its compatibility flag
+		for i, v := range []bool{false, false, true, false, false} {
+			set(27+i, v)
+		}
+		set(32+4, true)
+	}
+	for i, v := range flags {
+		set(64+i, v)
+	}
+	return mvH265Escape(raw)
+}
+
+func init() {
+	base := mvH265SPS[0]
+	pat := func(s string) []bool {
+		var o []bool
+		for _, c := range s {
+			o = append(o, c == '1')
+		}
+		return o
+	}
+	for _, v := range []struct {
+		flags string
+		rext  bool
+	}{
+		{"1001110100001", true},  // Main 4:2:2 10: max_12bit, max_10bit, max_422chroma, lower_bit_rate
+		{"1001111110001", true},  // Main 10 as RExt: max_422chroma and max_420chroma both set
+		{"1001100010001", false}, // max_420chroma without max_422chroma
+		{"0100000101010", true},  // interlaced, max_422chroma, max_monochrome, one_picture_only
+		{"1011001000100", false}, // non_packed, max_8bit, intra
+	} {
+		mvH265SPS = append(mvH265SPS, mvH265WithFlags(base, pat(v.flags), v.rext))
+	}
+}
